@@ -105,7 +105,8 @@ def run_tlc(module, cfg, wd, tag, workers=1, timeout=900, env=None, extra=(), xm
     outp = os.path.join(wd, tag + ".out")
     meta = os.path.join(wd, tag + ".meta")
     shutil.rmtree(meta, ignore_errors=True)
-    cmd = ["java", "-Xmx" + xmx, "-XX:+UseParallelGC", "-XX:ParallelGCThreads=%d" % max(2, min(workers, 8)),
+    # (-Xss: evaluating records with arrays of a few hundred elements overflows TLC's default thread stack)
+    cmd = ["java", "-Xmx" + xmx, "-Xss64m", "-XX:+UseParallelGC", "-XX:ParallelGCThreads=%d" % max(2, min(workers, 8)),
            "-cp", TLA_JAR + ":/opt/veriftools/tla/CommunityModules-deps.jar", "tlc2.TLC"]
     cmd += ["-workers", str(workers), "-noGenerateSpecTE", "-metadir", meta, "-config", cfgp]
     if simulate:
@@ -156,6 +157,7 @@ def parse_tlc(outp):
             if "Model checking completed. No error has been found." in line:
                 res["ok"] = True
             if ("Parsing or semantic analysis failed" in line or "java.lang." in line or "Exception in thread" in line
+                    or "StackOverflowError" in line
                     or "TLC threw an unexpected exception" in line or "was not found" in line and "file" in line.lower()):
                 res["fatal"] = line.strip()
     return res
@@ -331,6 +333,16 @@ def trace_cfg(spec="TSpec", invariants=LIB_INV, properties=LIB_PROPS, extra_cons
         consts.update(extra_constants)
     return cfg_text(spec, consts, invariants=invariants, properties=properties, action_constraints=["KfNote"],
                     postcondition="Accepted")
+
+
+def v2store_cfg():
+    """cfg of TraceV2Store: the rows predicted by V2Rows must be the rows found in the database."""
+    return cfg_text("TSpec", {"ValidNames": set(VALID_NAMES), "InvalidNames": set(INVALID_NAMES), "Variant": "current"},
+                    postcondition="Accepted")
+
+
+def v2store_also(schema):
+    return [("TraceV2Store", v2store_cfg())] if family(schema) == "v2" else []
 
 
 def load_trace(path):
